@@ -29,6 +29,7 @@ MESHES = {
     "cube12": SG.cube12,
     "screen3": lambda: SG.screen(3),
     "torus33": lambda: SG.torus(3, 3),
+    "two_tets_face": SG.two_tets_face,
 }
 
 
